@@ -11,6 +11,14 @@ SERIES = Slice(
     cap={"quick": 12000, "thorough": 0},
 )
 
+SERIES_PARSE = Slice(
+    name="SeriesParse",
+    module="MC_Series",
+    cfg={"quick": "mc/MC_SeriesParse_quick.cfg", "thorough": "mc/MC_SeriesParse_thorough.cfg"},
+    observe=("vf.obs_pandas", "observe_series_run"),
+    cap={"quick": 12000, "thorough": 150000},
+)
+
 
 def frame_slice(name: str, cap_quick: int = 6000) -> Slice:
     return Slice(
@@ -27,3 +35,28 @@ COLUMNS = frame_slice("columns")
 JOINT = frame_slice("joint")
 INDEX = frame_slice("index")
 FRAME_SLICES = [CONTAINER, COLUMNS, JOINT, INDEX]
+
+FRAME_PARSE = Slice(
+    name="Frame.parse",
+    module="MC_Frame",
+    cfg={"quick": "mc/MC_Frame_parse_quick.cfg", "thorough": "mc/MC_Frame_parse_thorough.cfg"},
+    observe=("vf.obs_pandas", "observe_frame_run"),
+    cap={"quick": 12000, "thorough": 150000},
+)
+
+FRAME_PARSE_BOTH = Slice(
+    name="Frame.parse.both",
+    module="MC_Frame",
+    cfg={"quick": "mc/MC_Frame_parse_quick.cfg", "thorough": "mc/MC_Frame_parse_thorough.cfg"},
+    observe=("vf.obs_pandas", "observe_frame_both"),
+    cap={"quick": 8000, "thorough": 100000},
+    select=lambda v: v["opts"]["lazy"] and not v["opts"]["inplace"],
+)
+SERIES_PARSE_BOTH = Slice(
+    name="SeriesParse.both",
+    module="MC_Series",
+    cfg={"quick": "mc/MC_SeriesParse_quick.cfg", "thorough": "mc/MC_SeriesParse_thorough.cfg"},
+    observe=("vf.obs_pandas", "observe_series_both"),
+    cap={"quick": 6000, "thorough": 100000},
+    select=lambda v: v["opts"]["lazy"] and not v["opts"]["inplace"],
+)
